@@ -12,7 +12,7 @@ Open Scope Z_scope.
 Ltac Zify.zify_post_hook ::= Z.to_euclidean_division_equations.
 
 (* reduce the evaluator on a concrete template with symbolic operands, leaving the leaf operations folded *)
-Ltac tred := cbv - [g_add g_sub g_mul g_neg g_div_i g_div_u g_mod_i g_mod_u g_shl g_shr_u g_shr_i g_not g_lt_i g_le_i
+Ltac tred := lazy - [g_add g_sub g_mul g_neg g_div_i g_div_u g_mod_i g_mod_u g_shl g_shr_u g_shr_i g_not g_lt_i g_le_i
   g_abs_i g_sign_i g_min_i g_max_i g_min_u g_max_u g_bitCount g_findLSB g_findMSB_u g_findMSB_i g_bitfieldReverse
   g_bfe_u g_bfe_i g_bfi g_f2i g_f2u g_sign_f f32_of_i32 f32_of_u32 fadd fsub fmul fdiv fneg fabs ffloor fceil ftrunc fround
   fsqrt ffma feq flt fle fgt fge fne fmin fmax is_nan_bits is_inf_bits
@@ -22,7 +22,7 @@ Ltac tred := cbv - [g_add g_sub g_mul g_neg g_div_i g_div_u g_mod_i g_mod_u g_sh
   lt_i32 le_i32 lt_u32 le_u32 abs_i32 min_i32 max_i32 min_u32 max_u32 clamp_i32 clamp_u32 sign_i32
   count_one_bits count_leading_zeros count_trailing_zeros reverse_bits first_leading_bit_u32 first_leading_bit_i32
   first_trailing_bit extract_bits_u32 extract_bits_i32 insert_bits bool_of_32 u32_of_bool i32_of_f32 u32_of_f32
-  dot_vals INT_MIN_BITS ALL_ONES F_ONE F_MONE is_poison].
+  dot_vals INT_MIN_BITS ALL_ONES F_ONE F_MONE].
 
 Ltac no_if t := lazymatch t with context [if _ then _ else _] => fail | _ => idtac end.
 Ltac atom_cases :=
@@ -90,16 +90,16 @@ Proof. tred. reflexivity. Qed.
 Lemma glsl_rem_i32_correct es a b : in32 a -> in32 b -> defined_rem_i32 a b ->
   teval es (t_bin BMod) (e2 (VI32 a) (VI32 b)) = Done (VI32 (rem_i32 a b)).
 Proof.
-  intros Ha Hb (Hz & Hsa & Hsb). tred. unfold_int.
+  intros Ha Hb (Hz & Hsa & Hsb). tred.
+  assert (Ea : sgn a = a /\ a < H32) by (unfold sgn, H32, in32, M32 in *; destruct (Z.ltb_spec a 2147483648); lia).
+  assert (Eb : sgn b = b /\ b < H32) by (unfold sgn, H32, in32, M32 in *; destruct (Z.ltb_spec b 2147483648); lia).
+  destruct Ea as [Ea La]. destruct Eb as [Eb Lb].
+  unfold g_mod_i, rem_i32, UB. rewrite Ea, Eb. unfold INT_MIN_BITS, ALL_ONES in *. unfold in32, M32, H32 in *.
   destruct (Z.eqb_spec b 0); [contradiction|].
-  assert (Ea : sgn a = a) by (unfold_arith; destruct (Z.ltb_spec a 2147483648); lia).
-  assert (Eb : sgn b = b) by (unfold_arith; destruct (Z.ltb_spec b 2147483648); lia).
-  rewrite Ea, Eb.
   destruct (Z.ltb_spec a 0); [lia|]. destruct (Z.ltb_spec b 0); [lia|]. cbn [orb]; cbv iota.
-  destruct (Z.eqb_spec a 2147483648); destruct (Z.eqb_spec b (4294967296 - 1)); cbn [andb]; cbv iota;
-    try (unfold_arith; destruct (Z.ltb_spec b 2147483648); lia).
-  all: do 2 f_equal; unfold_arith; rewrite Z.rem_mod_nonneg by lia;
-       pose proof (Z.mod_pos_bound a b ltac:(lia)); symmetry; apply Z.mod_small; lia.
+  destruct (Z.eqb_spec a 2147483648); [lia|]. cbn [andb]; cbv iota.
+  do 2 f_equal. rewrite Z.rem_mod_nonneg by lia. unfold wrap, M32.
+  pose proof (Z.mod_pos_bound a b ltac:(lia)). symmetry. apply Z.mod_small. lia.
 Qed.
 Lemma glsl_rem_u32_correct es a b : in32 a -> in32 b -> defined_rem_u32 a b ->
   teval es (t_bin BMod) (e2 (VU32 a) (VU32 b)) = Done (VU32 (rem_u32 a b)).
